@@ -15,6 +15,7 @@ type entry struct {
 }
 
 var checks = map[string]entry{
+	"C02": {"model_checking", props.C02},
 	"C09": {"model_checking", props.C09},
 	"C10": {"model_checking", props.C10},
 }
